@@ -693,7 +693,10 @@ func do_YIELD_VALUE(vm *Vm, arg int32) error {
 func do_IMPORT_STAR(vm *Vm, arg int32) error {
 	vm.frame.FastToLocals()
 	from := vm.POP()
-	module := from.(*py.Module)
+	module, ok := from.(*py.Module)
+	if !ok {
+		return py.ExceptionNewf(py.ImportError, "from-import-* object has no __dict__ and no __all__")
+	}
 	if all, ok := module.Globals["__all__"]; ok {
 		var loopErr error
 		iterErr := py.Iterate(all, func(item py.Object) bool {
